@@ -158,7 +158,8 @@ GEN = {
 }
 GEN['gen-append'] = 'abi <abi/4.0>,\n\ninclude <tunables/global>\n\n@{lib} += /opt/vendor/lib\n@{bin} += /opt/vendor/bin\n@{exec_path} = @{lib}/gen-append @{bin}/gen-append\nprofile gen-append @{exec_path} {\n  include <abstractions/base>\n\n  @{exec_path} mr,\n\n  include if exists <local/gen-append>\n}\n'
 GEN['gen-uselib'] = 'abi <abi/4.0>,\n\ninclude <tunables/global>\n\n@{exec_path} = @{lib}/gen-uselib @{bin}/gen-uselib\nprofile gen-uselib @{exec_path} {\n  include <abstractions/base>\n\n  @{exec_path} mr,\n\n  #aa:exec gen-append\n\n  include if exists <local/gen-uselib>\n}\n'
-GEN_HOSTS = ['gen-append', 'gen-uselib', 'gen-stack1', 'gen-stack2', 'gen-stackx', 'gen-exec2', 'gen-dbus', 'gen-none']
+GEN['gen-execu'] = 'abi <abi/4.0>,\n\ninclude <tunables/global>\n\n@{exec_path} = @{bin}/gen-execu\nprofile gen-execu @{exec_path} {\n  include <abstractions/base>\n\n  @{exec_path} mr,\n\n  #aa:exec U gen-t2 gen-t1\n\n  include if exists <local/gen-execu>\n}\n'
+GEN_HOSTS = ['gen-append', 'gen-uselib', 'gen-execu', 'gen-stack1', 'gen-stack2', 'gen-stackx', 'gen-exec2', 'gen-dbus', 'gen-none']
 STEP_RE = re.compile(r'^STEP (\d+) (\S+) sha=(\w+) globals=(\S*) err=(.*)$', re.M)
 
 
